@@ -394,6 +394,13 @@ Definition ctl_step (s : st) (l : label) : option st :=
       | KFinally => None
       | _ => Some (set_misc s (CShut0 KFinally) (clk s) (acked s) false (running s) (craised s) (shut s) (queue s))
       end
+  (* ... or anywhere else in the control tick outside the pool section of try_pause and outside a state save: the
+     exception leaves on_tick, the finally clause shuts down *)
+  | CDrain, LInterrupt | CGet, LInterrupt | CPoll _ _, LInterrupt | CAfterPoll, LInterrupt | CAfterUptime, LInterrupt =>
+      Some (set_misc s (CShut0 KFinally) (clk s) (acked s) false (running s) (craised s) (shut s) (queue s))
+  | CSave0 k, LInterrupt | CSave1 _ k, LInterrupt | CTp0 _ k, LInterrupt | CTp1 _ _ k, LInterrupt | CTp2 _ _ k, LInterrupt
+  | CTp5 _ k, LInterrupt | CTp6 _ _ k, LInterrupt | CTp7 _ _ k, LInterrupt | CRes0 k, LInterrupt | CRes1 k, LInterrupt | CRes2 k, LInterrupt =>
+      Some (set_misc s (CShut0 KFinally) (clk s) (acked s) false (running s) (craised s) (shut s) (queue s))
   (* epilogue of launch() *)
   | CJoin k, LJoin (TBg j) =>
       if Nat.eqb k j && match bp s j with BDone => true | _ => false end then Some (ctl s (if S k =? n then CFinScale else CJoin (S k))) else None
